@@ -15,6 +15,8 @@ bookkeeping functions it inherits from `base_renderer.py` (`_get_xskip`,
   `wire_label`, `end_wire_ext`, `align_layer`.  `gate_margin` is overwritten with `0` by
   `TextRenderer.__init__`, every other `StyleConfig` field is ignored by this renderer.
 * Classical controls of a gate are not read by the text renderer at all.
+* `Variant` says which of the proposed repairs the modelled tree contains (read from the
+  source with `ast` by py/props/c20.py); `{}` is the tree as shipped.
 * Indices are naturals (Python's wrap-around of negative indices is outside the model);
   an index outside the wire range is the `IndexError` of the code, `max([])`/`min([])`
   its `ValueError`.
@@ -75,12 +77,13 @@ abbrev St := List Wire
 inductive Err
   | index   -- IndexError
   | value   -- ValueError (`max`/`min` of an empty sequence)
+  | type    -- TypeError (`len(None)`: a gate without targets, e.g. GLOBALPHASE)
 deriving DecidableEq, Repr
 
-/-- The style options the text renderer reads.  `gate_pad = padNum / padDen` (a
-non-negative rational, `padDen > 0`); only `ceil(gate_pad)` is ever used. -/
+/-- The style options the text renderer reads.  `gate_pad = padNum / padDen` (a rational
+`> -1`, `padDen > 0`); only `ceil(gate_pad)` is ever used, and it is `≥ 0` on that domain. -/
 structure Style where
-  padNum : Nat := 1
+  padNum : Int := 1
   padDen : Nat := 20
   ext : Int := 2
   align : Bool := false
@@ -88,7 +91,21 @@ structure Style where
 deriving DecidableEq, Repr
 
 /-- `ceil(self.style.gate_pad)` -/
-def Style.pad (s : Style) : Nat := (s.padNum + s.padDen - 1) / s.padDen
+def Style.pad (s : Style) : Nat := ((s.padNum + (s.padDen : Int) - 1) / (s.padDen : Int)).toNat
+
+/-- Which repairs of `text_renderer.py` the modelled tree contains.
+* `spanFix` (fixes/C20-1): `_update_qbridge` skips every wire from the first to the last target
+  (not only the targets), and the marks `┴`/`┬` / the bridges are drawn iff a control lies beyond
+  the last / before the first target.
+* `insideNode` (fixes/C20-2): a control strictly inside the span of the targets gets its node `█`
+  in the box, at the link column.
+* `globalBox` (fixes/C20-3): a gate without targets and controls (`GLOBALPHASE`) is drawn as a box
+  over all qubits instead of raising `TypeError`. -/
+structure Variant where
+  spanFix : Bool := false
+  insideNode : Bool := false
+  globalBox : Bool := false
+deriving DecidableEq, Repr
 
 /-- A circuit element as the renderer sees it. -/
 inductive Op
@@ -96,6 +113,8 @@ inductive Op
   | gate (name : Str) (argLabel : Option Str) (targets : List Nat) (controls : Option (List Nat))
   /-- `Measurement`: `targets`, `classical_store` -/
   | meas (targets : List Nat) (store : Nat)
+  /-- `Gate` with `targets = None` and `controls = None` (`GLOBALPHASE`): `name`, `arg_label` -/
+  | glob (name : Str) (argLabel : Option Str)
 deriving DecidableEq, Repr
 
 structure Circ where
@@ -206,8 +225,15 @@ def truthy (c : Option (List Nat)) : Bool :=
 
 def ctrlList (c : Option (List Nat)) : List Nat := c.getD []
 
+/-- "is there a control above the box" as the tree computes it -/
+def isTop (v : Variant) (cs ts : List Nat) : Bool :=
+  if v.spanFix then decide (lmax cs > lmax ts) else decide (lmax cs > lmin ts)
+/-- "is there a control below the box" as the tree computes it -/
+def isBot (v : Variant) (cs ts : List Nat) : Bool :=
+  if v.spanFix then decide (lmin cs < lmin ts) else decide (lmin cs < lmax ts)
+
 /-- `_draw_multiq_gate` -/
-def drawMultiq (p : Nat) (text : Str) (targets : List Nat) (controls : Option (List Nat)) : Box :=
+def drawMultiq (v : Variant) (p : Nat) (text : Str) (targets : List Nat) (controls : Option (List Nat)) : Box :=
   let lid := rep (p * 2 + text.length) '─'
   let pad := rep p ' '
   let blank := rep text.length ' '
@@ -219,8 +245,8 @@ def drawMultiq (p : Nat) (text : Str) (targets : List Nat) (controls : Option (L
   if truthy controls then
     let cs := ctrlList controls
     let mi := bot.length / 2
-    { top := if lmax cs > lmin targets then setChar top mi '┴' else top
-      bot := if lmin cs < lmax targets then setChar bot mi '┬' else bot
+    { top := if isTop v cs targets then setChar top mi '┴' else top
+      bot := if isBot v cs targets then setChar bot mi '┬' else bot
       midFrame := midFrame, midConnect := midConnect, midLabel := midLabel }
   else
     { top := top, bot := bot, midFrame := midFrame, midConnect := midConnect, midLabel := midLabel }
@@ -249,16 +275,28 @@ def updCbridge (N : Nat) (t0 store : Nat) (wl : List Nat) (width : Nat) : List (
     else if w = N + store then some (w, { top := bar, mid := cconn, bot := rep bar.length ' ' })
     else some (w, { top := bar, mid := if w > N then midBarC else midBar, bot := bar })
 
-/-- `_update_target_multiq`; `wl = range(min(targets), max(targets) + 1)` -/
-def updTargetMultiq (targets : List Nat) (wl : List Nat) (b : Box) : List (Nat × Seg) :=
-  (List.zip (List.range wl.length) wl).map fun (i, w) =>
-    if targets.length = 1 then (w, { top := b.top, mid := b.midLabel, bot := b.bot })
-    else if i = 0 ∧ w ∈ targets then (w, { top := b.midFrame, mid := b.midLabel, bot := b.bot })
-    else if i = wl.length - 1 ∧ w ∈ targets then (w, { top := b.top, mid := b.midConnect, bot := b.midFrame })
-    else (w, { top := b.midFrame, mid := b.midFrame, bot := b.midFrame })
+/-- the piece `_update_target_multiq` appends to wire `w`, the `i`-th of the `n` wires of the box -/
+def targetSeg (v : Variant) (targets controls : List Nat) (n : Nat) (b : Box) (i w : Nat) : Seg :=
+  if targets.length = 1 then { top := b.top, mid := b.midLabel, bot := b.bot }
+  else if i = 0 ∧ w ∈ targets then { top := b.midFrame, mid := b.midLabel, bot := b.bot }
+  else if i = n - 1 ∧ w ∈ targets then { top := b.top, mid := b.midConnect, bot := b.midFrame }
+  else
+    { top := b.midFrame
+      mid := if v.insideNode = true ∧ w ∈ controls then setChar b.midFrame (b.midFrame.length / 2) '█'
+             else b.midFrame
+      bot := b.midFrame }
+
+/-- `_update_target_multiq`; `wl = range(min(targets), max(targets) + 1)`,
+`controls = gate.controls or []` -/
+def updTargetMultiq (v : Variant) (targets controls : List Nat) (wl : List Nat) (b : Box) : List (Nat × Seg) :=
+  (List.zip (List.range wl.length) wl).map fun x => (x.2, targetSeg v targets controls wl.length b x.1 x.2)
+
+/-- the wires `_update_qbridge` leaves to the box -/
+def inBox (v : Variant) (targets : List Nat) (w : Nat) : Bool :=
+  if v.spanFix then decide (lmin targets ≤ w ∧ w ≤ lmax targets) else decide (w ∈ targets)
 
 /-- `_update_qbridge` -/
-def updQbridge (targets controls : List Nat) (wl : List Nat) (width : Nat) (isTop : Bool) :
+def updQbridge (v : Variant) (targets controls : List Nat) (wl : List Nat) (width : Nat) (isTop : Bool) :
     List (Nat × Seg) :=
   let h := width / 2
   let bar := rep h ' ' ++ '│' :: rep (h - 1) ' '
@@ -266,7 +304,7 @@ def updQbridge (targets controls : List Nat) (wl : List Nat) (width : Nat) (isTo
   let node := rep h '─' ++ '█' :: rep (h - 1) '─'
   let blank := rep bar.length ' '
   wl.filterMap fun w =>
-    if w ∈ targets then none
+    if inBox v targets w then none
     else if w ∈ controls then
       if some w = wl.head? ∨ some w = wl.getLast? then
         some (w, { top := if !isTop then bar else blank, mid := node, bot := if isTop then bar else blank })
@@ -299,8 +337,37 @@ def swapName : Str := ['S', 'W', 'A', 'P']
 
 def gateText (name : Str) (argLabel : Option Str) : Str := argLabel.getD name
 
+/-- the `elif … else` chain of `layout` for a `Gate` with a target list -/
+def planGate (v : Variant) (p : Nat) (name : Str) (argLabel : Option Str) (targets : List Nat)
+    (controls : Option (List Nat)) : Except Err Plan :=
+  let text := gateText name argLabel
+  if targets.length = 1 ∧ controls = none then
+    let g := drawSingleq p text
+    .ok { wl := targets, width := g.top.length, acts := updSingleq targets g }
+  else if name = swapName then
+    if targets.isEmpty then .error .value                 -- `min([])`
+    else
+      let wl := pyRange (lmin targets) (lmax targets + 1)
+      .ok { wl := wl, width := 4 * p + 1, acts := updSwap p wl }
+  else
+    let merged := targets ++ ctrlList controls
+    if targets.isEmpty then .error .index                 -- `merged_wire[0]` / `sorted_targets[0]`
+    else
+      let wl := pyRange (lmin merged) (lmax merged + 1)
+      let b := drawMultiq v p text targets controls
+      let width := b.top.length
+      let tmin := lmin targets
+      let tmax := lmax targets
+      let a0 := updTargetMultiq v targets (ctrlList controls) (pyRange tmin (tmax + 1)) b
+      if truthy controls then
+        let cs := ctrlList controls
+        let a1 := if isTop v cs targets then updQbridge v targets cs (pyRange tmin (lmax cs + 1)) width true else []
+        let a2 := if isBot v cs targets then updQbridge v targets cs (pyRange (lmin cs) (tmax + 1)) width false else []
+        .ok { wl := wl, width := width, acts := a0 ++ a1 ++ a2 }
+      else .ok { wl := wl, width := width, acts := a0 }
+
 /-- the `if isinstance(gate, Measurement) … elif … else` chains of `layout` -/
-def plan (p N C : Nat) : Op → Except Err Plan
+def plan (v : Variant) (p N C : Nat) : Op → Except Err Plan
   | .meas targets store =>
     match targets with
     | [] => .error .index                                   -- `gate.targets[0]`
@@ -309,34 +376,10 @@ def plan (p N C : Nat) : Op → Except Err Plan
       let g := drawMeas p N t0 store
       let width := g.top.length
       .ok { wl := wl, width := width, acts := updSingleq targets g ++ updCbridge N t0 store wl width }
-  | .gate name argLabel targets controls =>
-    let text := gateText name argLabel
-    if targets.length = 1 ∧ controls = none then
-      let g := drawSingleq p text
-      .ok { wl := targets, width := g.top.length, acts := updSingleq targets g }
-    else if name = swapName then
-      if targets.isEmpty then .error .value                 -- `min([])`
-      else
-        let wl := pyRange (lmin targets) (lmax targets + 1)
-        .ok { wl := wl, width := 4 * p + 1, acts := updSwap p wl }
-    else
-      let merged := targets ++ ctrlList controls
-      if targets.isEmpty then .error .index                 -- `merged_wire[0]` / `sorted_targets[0]`
-      else
-        let wl := pyRange (lmin merged) (lmax merged + 1)
-        let b := drawMultiq p text targets controls
-        let width := b.top.length
-        let tmin := lmin targets
-        let tmax := lmax targets
-        let a0 := updTargetMultiq targets (pyRange tmin (tmax + 1)) b
-        if truthy controls then
-          let cs := ctrlList controls
-          let isTop : Bool := lmax cs > tmin
-          let isBot : Bool := lmin cs < tmax
-          let a1 := if isTop then updQbridge targets cs (pyRange tmin (lmax cs + 1)) width isTop else []
-          let a2 := if isBot then updQbridge targets cs (pyRange (lmin cs) (tmax + 1)) width (!isBot) else []
-          .ok { wl := wl, width := width, acts := a0 ++ a1 ++ a2 }
-        else .ok { wl := wl, width := width, acts := a0 }
+  | .gate name argLabel targets controls => planGate v p name argLabel targets controls
+  | .glob name argLabel =>
+    -- shipped: `len(gate.targets)` with `targets = None`; repaired: a box over all the qubits
+    if v.globalBox then planGate v p name argLabel (List.range N) none else .error .type
 
 /-- "update the render strings for the gate" -/
 def place (align : Bool) (N : Nat) (pl : Plan) (st : St) : St :=
@@ -344,8 +387,8 @@ def place (align : Bool) (N : Nat) (pl : Plan) (st : St) : St :=
   let xskip := getXskip align N st pl.wl layer
   applyActs pl.acts (manageLayers pl.width pl.wl layer xskip (adjustPad N pl.wl xskip st))
 
-def step (sty : Style) (N C : Nat) (st : St) (op : Op) : Except Err St :=
-  match plan sty.pad N C op with
+def step (v : Variant) (sty : Style) (N C : Nat) (st : St) (op : Op) : Except Err St :=
+  match plan v sty.pad N C op with
   | .error e => .error e
   | .ok pl =>
     if !pl.wl.all (· < N + C) then .error .index            -- `self._layer_list[i]`
@@ -353,12 +396,12 @@ def step (sty : Style) (N C : Nat) (st : St) (op : Op) : Except Err St :=
     else if !pl.acts.all (·.1 < N + C) then .error .index   -- `self._render_strs[..][wire]`
     else .ok (place sty.align N pl st)
 
-def steps (sty : Style) (N C : Nat) : St → List Op → Except Err St
+def steps (v : Variant) (sty : Style) (N C : Nat) : St → List Op → Except Err St
   | st, [] => .ok st
   | st, op :: ops =>
-    match step sty N C st op with
+    match step v sty N C st op with
     | .error e => .error e
-    | .ok st' => steps sty N C st' ops
+    | .ok st' => steps v sty N C st' ops
 
 /-- the final `_adjust_layer_pad` of `layout` -/
 def finalPad (sty : Style) (N : Nat) (st : St) : St :=
@@ -366,11 +409,11 @@ def finalPad (sty : Style) (N : Nat) (st : St) : St :=
   adjustPad N (List.range st.length) (maxLayerLen + sty.ext) st
 
 /-- state of the renderer when `layout` calls `print_circuit` -/
-def layoutSt (sty : Style) (c : Circ) : Except Err St :=
+def layoutSt (v : Variant) (sty : Style) (c : Circ) : Except Err St :=
   match addWireLabels sty c.N c.C (initSt c.N c.C) with
   | .error e => .error e
   | .ok st0 =>
-    match steps sty c.N c.C st0 c.ops with
+    match steps v sty c.N c.C st0 c.ops with
     | .error e => .error e
     | .ok st => .ok (finalPad sty c.N st)
 
@@ -387,8 +430,8 @@ def printOrder (N C : Nat) : List Nat :=
 def printRows (N C : Nat) (st : St) : List Str := (printOrder N C).flatMap (wireRows st)
 
 /-- `QubitCircuit.draw("text", **style)`: the printed lines, or the exception -/
-def render (sty : Style) (c : Circ) : Except Err (List Str) :=
-  match layoutSt sty c with
+def render (v : Variant) (sty : Style) (c : Circ) : Except Err (List Str) :=
+  match layoutSt v sty c with
   | .error e => .error e
   | .ok st => .ok (printRows c.N c.C st)
 
